@@ -584,7 +584,9 @@ func exprAsAssignmentConsumer(rootNode *RootAssertionNode, expr ast.Node, exprRH
 
 			exprType := rootNode.Pass().TypesInfo.Types[expr].Type
 
-			if named, ok := exprType.(*types.Named); ok {
+			// A type alias denotes the very same type as its right-hand side, so a value typed through
+			// an alias of a named type is linked to the annotation site of that named type.
+			if named, ok := types.Unalias(exprType).(*types.Named); ok {
 				// Calling Underlying on [types.Named] will always return the unnamed type, so we
 				// do not have to recursively "unwrap" the [types.Named].
 				// See [https://github.com/golang/example/tree/master/gotypes#named-types].
